@@ -336,12 +336,42 @@ def origin(fn, n, depth=4):
     return dict(info, binding=b)
 
 
+def alias_root(fn, b, depth=6):
+    """The local that binding b merely renames: `let a = b;`, `let a = { ..; b }` (value of an absorbed helper) -> b, transitively."""
+    while depth > 0 and b is not None:
+        d = single_def(fn, b)
+        if d is None:
+            break
+        b2 = local_of(d, set())
+        if b2 is None or b2 == b:
+            break
+        b = b2
+        depth -= 1
+    return b
+
+
 def resolve(fn, n, transparent=TRANSPARENT):
     """Expression n with hoisted single-assignment lets followed (`let d = f(x); g(d)` -> `f(x)`); n (peeled) otherwise."""
     o = origin(fn, n)
     if o.get("from") == "expr":
         return peel(o["expr"], transparent)
     return peel(n, transparent)
+
+
+ELEMENT_ADAPTORS = ("find", "any", "all", "position", "filter", "skip_while", "take_while", "find_map", "for_each", "map")
+
+
+def element_source(fn, n):
+    """If n's value is an element of an iteration - the variable of a `for` loop, or the (first) parameter of a closure handed to
+    find / any / all / position / filter / ... - the expression that is iterated, else None."""
+    o = origin(fn, n)
+    if o.get("from") == "for":
+        return o["node"]["iter"]
+    if o.get("from") == "closure_param" and o.get("index") == 0:
+        call = enclosing_call_of_closure(fn, o["closure"])
+        if call is not None and call.get("k") == "mcall" and call["m"] in ELEMENT_ADAPTORS:
+            return call["r"]
+    return None
 
 
 def loop_var_of(fn, n):
